@@ -85,6 +85,7 @@ func runHazard(r *runner, sc Scenario, wg *sync.WaitGroup) {
 				return
 			}
 			<-closePending
+			r.arm()
 			r.call(0, "doccount", 0, 0, func() error { _, err := idx.DocCount(); return err })
 			r.call(0, "fdclose", 0, 0, func() error { return fdc.Close() })
 		}()
@@ -93,7 +94,7 @@ func runHazard(r *runner, sc Scenario, wg *sync.WaitGroup) {
 			<-fdOpen
 			go func() {
 				// Close is pending once its goroutine sits in RWMutex.Lock under indexImpl.Close
-				waitBlocked("sync.RWMutex.Lock", 30*time.Second, "(*indexImpl).Close")
+				waitBlocked("sync.RWMutex.Lock", 5*time.Minute, "(*indexImpl).Close")
 				close(closePending)
 			}()
 			r.call(1, "close", 0, 0, idx.Close)
@@ -105,6 +106,7 @@ func runHazard(r *runner, sc Scenario, wg *sync.WaitGroup) {
 		go func() {
 			defer wg.Done()
 			r.call(0, "close", 0, 0, idx.Close)
+			r.arm()
 			r.call(1, "close", 0, 0, idx.Close)
 			r.call(1, "doccount", 0, 0, func() error { _, err := idx.DocCount(); return err })
 			close(r.closeRet)
@@ -117,8 +119,9 @@ func runHazard(r *runner, sc Scenario, wg *sync.WaitGroup) {
 			defer wg.Done()
 			ctx, cancel := context.WithCancel(context.Background())
 			go func() {
-				waitBlocked("select", 30*time.Second, "(*Scorch).ForceMerge")
+				waitBlocked("select", 5*time.Minute, "(*Scorch).ForceMerge")
 				cancel()
+				r.arm()
 			}()
 			adv := r.adv
 			r.call(0, "forcemerge", 1, 0, func() error { return adv.ForceMerge(ctx, nil) })
